@@ -3,7 +3,10 @@ PROP = {
     "runs": [{"tag": "c05", "bin": "c05"},
              # an element destructor that panics INSIDE the caller's closure of map/zip/fold and of the
              # iterator's fold/rfold: the intermediate consumer/builder/iterator is torn down by unwinding
-             {"tag": "c05forms", "bin": "c04", "args": ["--mode", "1"], "num": 4}],
+             {"tag": "c05forms", "bin": "c04", "args": ["--mode", "1"], "num": 4},
+             # the same histories with every iterator method run through the program REGENERATED from
+             # src/iter.rs (MuRust interpreter, GenRun.v): the translated source itself is executed
+             {"tag": "c05gen", "bin": "c05", "num": 105}],
     "mismatch_is_failing": True,
     "regen_files": ["GenIter.v"],
     "rule": "exhaustive: N<=6 (thorough 8) x every (front,back) position x {none, next, next_back, nth k, nth_back k for k in 0..=len+2} x every choice of the panicking element (and none) x {drop, count, last}, the caller catching every unwind and then using the iterator again; plus seeded histories for N in {1,2,3,5,8,16,33}. distinct = distinct CASE lines; non-trivial = a destructor is armed (second integer >= 0)",
